@@ -2,8 +2,8 @@
    Statements + `exact` only; proofs are in Proofs/C14*.v.  The model (Model/C14.v) is tied to
    partitura/performance.py by the correspondence run by harness/props/c14.py on every check;
    the specification (Model/C14_Spec.v) is defined directly over the unsorted control stream. *)
-From PV Require Import Lib.Base Lib.Round Model.C12 Model.C14 Model.C14_Spec Model.C14_Note Model.C14_Trk Model.C14_State
-  Proofs.C14_so Proofs.C14_spec Proofs.C14 Proofs.C14_hist Proofs.C14_note Proofs.C14_trk Proofs.C14_perm Proofs.C14_state Proofs.C14_repr Proofs.C14_order.
+From PV Require Import Lib.Base Lib.Round Model.C12 Model.C14 Model.C14_Spec Model.C14_Note Model.C14_Trk Model.C14_State Model.C14_Strike
+  Proofs.C14_so Proofs.C14_spec Proofs.C14 Proofs.C14_hist Proofs.C14_note Proofs.C14_trk Proofs.C14_perm Proofs.C14_state Proofs.C14_repr Proofs.C14_order Proofs.C14_lib Proofs.C14_strike.
 From Coq Require Import QArith Qminmax Qabs Permutation ZArith List.
 #[local] Open Scope Q_scope.
 
@@ -484,3 +484,85 @@ Theorem note_order_example :
   sound_offs 64 ex_notes ex_ctrls = [3; 5; 6] /\ sound_offs 64 (rev ex_notes) ex_ctrls = [6; 5; 3].
 Proof. exact note_order_example_lemma. Qed.
 Print Assumptions note_order_example.
+
+(* ===== round j: the re-strike clipping AS CODED (Model/C14_Strike.v, Proofs/C14_strike.v) =====
+   np.unique over the pitches, per pitch the gathers a[sorted_indices], the index arithmetic
+   np.maximum(np.searchsorted(sorted_note_ons, note_offs[sorted_indices]), arange(1, n + 1)), has_next / np.minimum, and the
+   in-place scatter offs[sorted_indices] = ... into the ONE array carried from pitch to pitch *)
+
+(* S1  the function on arrays and indices computes the column of sound_offs -- all note lists (repeated and
+   overlapping notes of a pitch, zero-length notes, any order), control streams, thresholds; so every theorem
+   above about sound_offs is a theorem about the array-level algorithm *)
+Theorem code_level_refines_model : forall thr ns cs, sound_offs_code thr ns cs = sound_offs thr ns cs.
+Proof. exact sound_offs_code_eq. Qed.
+Print Assumptions code_level_refines_model.
+
+(* S2  the index arithmetic, per group: in ANY group sorted by onset with distinct note positions the index
+   max(searchsorted_left(onsets, release_k), k + 1) addresses exactly the first strike at or after the release
+   among the notes later in onset order -- and lies past the end (has_next false) exactly when there is none *)
+Theorem strike_index_is_first_later_strike : forall g k i n,
+  sorted_by_key on_key g -> NoDup (map fst g) -> nth_error g k = Some (i, n) ->
+  nth_error g (idx_code (map on_key g) k (n_off n)) =
+  find (fun e => Qle_bool (n_off n) (n_on (snd e))) (after i g).
+Proof. exact strike_index_lemma. Qed.
+Print Assumptions strike_index_is_first_later_strike.
+
+(* S3  the loop over the pitches with its in-place scatter, started on ANY array of one entry per note: entry i
+   ends as offs[i] clipped by the next strike of note i, untouched by the passes of the other pitches *)
+Theorem restrike_loop_pointwise : forall ns offs, List.length offs = List.length ns ->
+  restrike_loop ns offs =
+  map (fun e => clip (nth (fst e) offs 0) (next_strike ns (fst e) (snd e))) (indexed ns).
+Proof. exact restrike_loop_char. Qed.
+Print Assumptions restrike_loop_pointwise.
+
+(* S3'  the order of the passes does not matter, nor do passes for pitches no note has: the loop over ANY
+   duplicate-free list of pitches containing every pitch of the part gives the array of the loop over np.unique *)
+Theorem restrike_pass_order_irrelevant : forall ns ps offs,
+  NoDup ps -> (forall n, In n ns -> In (n_pitch n) ps) -> List.length offs = List.length ns ->
+  fold_left (restrike_pitch ns) ps offs = restrike_loop ns offs.
+Proof. exact pass_order_lemma. Qed.
+Print Assumptions restrike_pass_order_irrelevant.
+
+(* S4  the statement's clauses at the level of the code: never before the release; the specified sounding end *)
+Theorem code_level_ge_release : forall thr ns cs,
+  Forall2 (fun n so => n_off n <= so) ns (sound_offs_code thr ns cs).
+Proof. exact code_ge_release. Qed.
+Print Assumptions code_level_ge_release.
+
+Theorem code_level_is_spec : forall thr ns cs,
+  distinct_pedal_times cs -> no_zero_length_tie ns -> released_after_onset ns ->
+  forall i n, nth_error ns i = Some n ->
+  exists s, nth_error (sound_offs_code thr ns cs) i = Some s /\ sounding_end thr ns cs i n s.
+Proof. exact code_is_spec. Qed.
+Print Assumptions code_level_is_spec.
+
+(* non-vacuity: repeated pitches out of onset order, a zero-length note, a strike exactly at a release, a held
+   note struck again by a note the pedal does not hold *)
+Theorem strike_worked_example :
+  sound_offs_code 64 sx_notes sx_ctrls = [5; 5; 2; 2; 5; 2; 6] /\
+  unique_pitches sx_notes = [60; 62; 64; 65]%Z /\
+  sorted_indices sx_notes 60 = [2; 0]%nat /\
+  next_strike_idx idx_code [0; 2] [1; 3] = [1; 2]%nat.
+Proof. exact strike_example_lemma. Qed.
+Print Assumptions strike_worked_example.
+
+(* the statements discriminate: the same algorithm without np.maximum(.., arange) (a zero-length note clips
+   itself: seed b), with searchsorted side="right" (a strike exactly at the release no longer clips), with groups
+   made of the pedal-held notes only (seed i) computes another column on that input *)
+Theorem strike_without_arange_refuted :
+  sound_offs_with idx_nomax 64 sx_notes sx_ctrls = [5; 1; 2; 2; 5; 2; 6] /\
+  sound_offs_with idx_nomax 64 sx_notes sx_ctrls <> sound_offs 64 sx_notes sx_ctrls.
+Proof. exact nomax_refuted_lemma. Qed.
+Print Assumptions strike_without_arange_refuted.
+
+Theorem strike_side_right_refuted :
+  sound_offs_with idx_right 64 sx_notes sx_ctrls = [5; 5; 2; 5; 5; 2; 6] /\
+  sound_offs_with idx_right 64 sx_notes sx_ctrls <> sound_offs 64 sx_notes sx_ctrls.
+Proof. exact side_right_refuted_lemma. Qed.
+Print Assumptions strike_side_right_refuted.
+
+Theorem strike_sustained_groups_refuted :
+  sound_offs_sustained 64 sx_notes sx_ctrls = [5; 5; 2; 2; 5; 5; 6] /\
+  sound_offs_sustained 64 sx_notes sx_ctrls <> sound_offs 64 sx_notes sx_ctrls.
+Proof. exact sustained_only_refuted_lemma. Qed.
+Print Assumptions strike_sustained_groups_refuted.
